@@ -19,6 +19,8 @@ func Shape(t reflect.Type) string {
 		return "MsgT"
 	case ptypes.TGogo:
 		return "GogoT"
+	case ptypes.TGogoV:
+		return "GogoV"
 	case ptypes.TRaw:
 		return "RawMessage"
 	}
@@ -342,7 +344,7 @@ var matrixTypes = func() []reflect.Type {
 	base := []reflect.Type{
 		reflect.TypeOf(false), reflect.TypeOf(int(0)), reflect.TypeOf(int32(0)), reflect.TypeOf(int64(0)), reflect.TypeOf(uint(0)), reflect.TypeOf(uint32(0)), reflect.TypeOf(uint64(0)),
 		reflect.TypeOf(float32(0)), reflect.TypeOf(float64(0)), reflect.TypeOf(""), reflect.TypeOf([]byte(nil)), reflect.TypeOf([4]byte{}), reflect.TypeOf([16]byte{}),
-		ptypes.TMsg, ptypes.TGogo, ptypes.TRaw, reflect.TypeOf(struct{ A, B int32 }{}), reflect.TypeOf(struct{ P *int64 }{}),
+		ptypes.TMsg, ptypes.TGogo, ptypes.TGogoV, ptypes.TRaw, reflect.TypeOf(struct{ A, B int32 }{}), reflect.TypeOf(struct{ P *int64 }{}),
 	}
 	var ts []reflect.Type
 	for _, b := range base {
@@ -425,7 +427,7 @@ func runTopLevel(c *core.Case) {
 	c.Journal("top-level")
 	r := c.Rng
 	f := &ptypes.Filler{R: r}
-	for _, t := range []reflect.Type{ptypes.TMsg, ptypes.TGogo, ptypes.TRaw} {
+	for _, t := range []reflect.Type{ptypes.TMsg, ptypes.TGogo, ptypes.TGogoV, ptypes.TRaw} {
 		v := f.NewValue(t)
 		check(c, "top-level", v)
 	}
@@ -468,7 +470,7 @@ func carries(v reflect.Value, depth int) bool {
 		f := v.Field(i)
 		ft := f.Type()
 		switch {
-		case ft == ptypes.TMsg || ft == ptypes.TGogo || ft == ptypes.TRaw:
+		case ptypes.IsCustom(ft):
 			return true
 		}
 		switch f.Kind() {
@@ -483,7 +485,7 @@ func carries(v reflect.Value, depth int) bool {
 			if f.Kind() == reflect.Pointer {
 				continue // nil somewhere along the chain
 			}
-			if f.Kind() != reflect.Struct || f.Type() == ptypes.TMsg || f.Type() == ptypes.TGogo || carries(f, depth+1) {
+			if f.Kind() != reflect.Struct || ptypes.IsCustom(f.Type()) || carries(f, depth+1) {
 				return true
 			}
 		case reflect.Struct:
